@@ -32,7 +32,8 @@ def run_times_case(prog, params):
     def h(ex):
         findings = []
         sr = ScriptRunner(ex)
-        target = config_lines(sr, cfg)            # defines f (and lf for ovl_lower)
+        both = cfg == 'ovl_both'                  # the entry exists in the upper AND in the lower layer (created in each directly)
+        target = config_lines(sr, 'ovl_lower' if both else cfg)            # defines f (and lf for ovl_lower)
         content = sym_content(ex, 2, 'content')
         sr.syms['content'] = content
         if kind == 'file':
@@ -46,6 +47,11 @@ def run_times_case(prog, params):
             r = sr.do('create_dir %s' % target)
         if r != 'ok':
             raise Unmodelled('times set-up: ' + r)
+        if both:
+            sr.do('join uf L0 %s' % hx(b'f'))
+            r = sr.do('write uf $content' if kind == 'file' else 'create_dir uf')
+            if r != 'ok':
+                raise Unmodelled('times set-up (upper copy): ' + r)
         key0 = '%s|%s' % (cfg, kind)
         sr.do('times f')
         if not sr.last.ok:
